@@ -116,12 +116,21 @@ def gen_library(rng, string_mode=False):
             hdr += "  " + m.decl() + "\n"
         hdr += "  int operator + (int k) const;\n  bool operator == (const %s &o) const;\n  %s &operator += (int k);\n  int operator () (int a, int b) const;\n  int operator [] (int i) const;\n" % (cname, cname)
         hdr += "  operator int () const;\n"
+        # an overload set in which bool competes with int: each wrapper runs the overload it is documented for
+        hdr += "  int choose(bool b) const;\n  int choose(int k) const;\n  int toggle(bool on);\n  int toggle(int level);\n"
+        impl += ("int %(c)s::choose(bool b) const { tr(\"%(c)s::choose(bool)\", _id, {(long double)b}); return 11 + (b ? 1 : 0); }\n"
+                 "int %(c)s::choose(int k) const { tr(\"%(c)s::choose(int)\", _id, {(long double)k}); return 2000 + k; }\n"
+                 "int %(c)s::toggle(bool on) { tr(\"%(c)s::toggle(bool)\", _id, {(long double)on}); _s = _s * 3 + (on ? 1 : 2); return on ? 1 : 0; }\n"
+                 "int %(c)s::toggle(int level) { tr(\"%(c)s::toggle(int)\", _id, {(long double)level}); _s = _s * 5 + (unsigned long long)(level & 7); return 100 + level; }\n") % {"c": cname}
         hdr += "  %s operator ++ (int);\n  %s &operator ++ ();\n  %s operator -- (int);\n" % (cname, cname, cname)
         if string_mode:
             hdr += ("  int sel(int key, const std::string &s);\n  int sel(int key, bool b);\n  int find(const std::string &s) const;\n  int find(const char *s) const;\n"
                     "  int pick(const std::string &s, int k = 2) const;\n  int pick(bool b, int k = 2) const;\n")
         hdr += "  class Inner%d {\n  __published:\n    Inner%d(int q);\n    int twice() const;\n    int _q;\n  };\n" % (ci, ci)
         hdr += "  BoxI make_box(int v) const;\n  int read_box(const BoxI &b) const;\n  geo::Pt make_pt(int v) const;\n  int read_pt(const geo::Pt &p) const;\n"
+        if string_mode:
+            hdr += "  static std::string s_tag%d;\n  std::string text%d;\n" % (ci, ci)
+            impl += 'std::string %s::s_tag%d = "static tag %d, long enough to live on the heap";\n' % (cname, ci, ci)
         hdr += "  int _pub%d;\npublic:\n  int pubonly%d(int a);\n  unsigned long long _s;\n  long long _id;\n};\n" % (ci, ci)
         impl += "%s::%s(int seed) : %s_pub%d(seed * 3), _s((unsigned long long)seed * 7919ULL + %d), _id(seed) {}\n%s::~%s() {}\n" % (
             cname, cname, (base + "(seed), ") if base else "", ci, ci, cname, cname)
@@ -184,6 +193,9 @@ def gen_library(rng, string_mode=False):
             params[j] = (params[j][0], params[j][1], rng.choice(SCALARS[params[j][0]]))
         m = M(None, "free%d" % k, rng.choice(RETS), params, ndef=ndef)
         frees.append(m)
+    if string_mode:
+        hdr += "__begin_publish\nextern std::string g_title;\n__end_publish\n"
+        impl += 'std::string g_title = "a global title that is long enough to live on the heap";\n'
     hdr += "__begin_publish\n" + "".join(m.decl() + "\n" for m in frees) + "__end_publish\n#endif\n"
     for k, m in enumerate(frees):
         impl += "%s %s(%s) {\n%s\n}\n" % (m.ret, m.name, ", ".join("%s %s" % (t, n) for t, n, d in m.params), body(m, 900 + k))
@@ -309,6 +321,14 @@ def gen_driver(lib, wrappers, rng, string_mode=False, promiscuous=False):
             out.append("  { %s ow(7), od(7); chk(\"getter %s\", %s(&ow) == od.%s); }" % (cn, fld, w["name"], fld))
         for w in by_scoped.get("%s::set%s" % (cn, fld), []):
             out.append("  { %s ow(7), od(7); %s(&ow, -123456); od.%s = -123456; chk(\"setter %s\", ow.%s == od.%s); }" % (cn, w["name"], fld, fld, fld, fld))
+        if string_mode:
+            # reading a string-valued variable leaves it as it was: read twice, compare both answers and the variable itself
+            for w in by_scoped.get("%s::get_s_tag%d" % (cn, c["index"]), []):
+                out.append("  { std::string before = %s::s_tag%d; std::string r1 = %s(); std::string r2 = %s(); chk(\"static string member read twice\", r1 == before && r2 == before && %s::s_tag%d == before); }"
+                           % (cn, c["index"], w["name"], w["name"], cn, c["index"]))
+            for w in by_scoped.get("%s::get_text%d" % (cn, c["index"]), []):
+                out.append("  { %s ow(7); ow.text%d = \"member text long enough to live on the heap\"; std::string before = ow.text%d; std::string r1 = %s(&ow); std::string r2 = %s(&ow); chk(\"string member read twice\", r1 == before && r2 == before && ow.text%d == before); }"
+                           % (cn, c["index"], c["index"], w["name"], w["name"], c["index"]))
         # operators, typecast, nested class, typedef'd template instantiation, namespace class
         def first(scoped, pred=lambda w: True):
             ws = [w for w in by_scoped.get(scoped, []) if pred(w)]
@@ -346,6 +366,13 @@ def gen_driver(lib, wrappers, rng, string_mode=False, promiscuous=False):
                         wcall, dcall = "%s(&ow, %s%s)" % (w["name"], text, extra), "od.pick(std::string(%s)%s)" % (text, extra)
                     out.append("  { %s ow(9), od(9); size_t mark = g_trace.size(); chk(\"%s::%s string overload result\", %s == %s); chk(\"%s::%s string overload state\", ow._s == od._s); trace_pair(\"%s::%s string overload trace\", mark); }"
                                % (cn, cn, mname, wcall, dcall, cn, mname, cn, mname))
+        for mname in ("choose", "toggle"):
+            for w in by_scoped.get("%s::%s" % (cn, mname), []):
+                vals = ["true", "false"] if "bool" in w["proto"] else ["5", "0", "1"]
+                cast = "(bool)" if "bool" in w["proto"] else "(int)"
+                for v in vals:
+                    out.append("  { %s ow(9), od(9); size_t mark = g_trace.size(); chk(\"%s::%s bool/int overload result\", %s(&ow, %s) == od.%s(%s%s)); chk(\"%s::%s bool/int overload state\", ow._s == od._s); trace_pair(\"%s::%s bool/int overload trace\", mark); }"
+                               % (cn, cn, mname, w["name"], v, mname, cast, v, cn, mname, cn, mname))
         w = first("%s::operator()" % cn)
         if w:
             out.append("  { %s ow(9), od(9); chk(\"%s operator()\", %s(&ow, 2, 3) == od(2, 3)); }" % (cn, cn, w["name"]))
@@ -409,6 +436,9 @@ def gen_driver(lib, wrappers, rng, string_mode=False, promiscuous=False):
                 args = [rng.choice(SCALARS[t]) for t, n, d in m.params[:arity]]
                 out.append("  { g_state = %d; auto rw = %s(%s); g_state = %d; auto rd = %s(%s);" % (trial, w["name"], ", ".join(args), trial, m.name, ", ".join(args)))
                 out.append("    " + cmp_stmt(m.ret, "%s/%d" % (m.name, arity), "rw", "rd") + " }")
+    if string_mode:
+        for w in by_scoped.get("get_g_title", []):
+            out.append("  { std::string before = g_title; std::string r1 = %s(); std::string r2 = %s(); chk(\"global string read twice\", r1 == before && r2 == before && g_title == before); }" % (w["name"], w["name"]))
     out.append('  std::printf("checks=%d failures=%d\\n", checks, failures);')
     out.append("  return failures ? 1 : 0;")
     out.append("}")
@@ -548,6 +578,15 @@ def gen_py_driver(lib, wrappers, rng, string_mode=False):
                     out.append("  }")
                     if m.kind not in ("virtual", "label", "name"):
                         break
+        for mname in ("choose", "toggle"):
+            for w in by_scoped.get("%s::%s" % (c["name"], mname), []):
+                isb = "bool" in w["proto"]
+                for v in (["true", "false"] if isb else ["5", "0", "1"]):
+                    out.append("  { // %s" % w["proto"])
+                    out.append("    %s ow(9), od(9); PyObject *a = tup({H(&ow), %s}); PyObject *r = %s(nullptr, a); auto rd = od.%s(%s%s);" % (
+                        c["name"], py_arg("bool" if isb else "int", v), w["name"], mname, "(bool)" if isb else "(int)", v))
+                    out.append("    " + py_ret_cmp("int", "%s::%s bool/int overload result" % (c["name"], mname), "rd"))
+                    out.append('    chk("%s::%s bool/int overload state", ow._s == od._s); }' % (c["name"], mname))
         if string_mode:
             ws = by_scoped.get("%s::label" % c["name"], [])
             if ws:
